@@ -101,6 +101,8 @@ def val_term(x, tb: Tables | None = None) -> str:
     if type(x) is int:
         return f"(VInt ({x})%Z)"
     if type(x) is float:
+        if x != x or x in (float("inf"), float("-inf")):
+            return f"(VOther {cstr('float')})"       # nan / inf: json.dumps writes NaN / Infinity, which is not JSON
         return f"(VFloat {cstr(repr(x))})"
     if type(x) is str:
         return f"(VStr {cstr(x)})"
@@ -116,6 +118,8 @@ def json_term(j, tb: Tables | None = None) -> str:
     if type(j) is int:
         return f"(JInt ({j})%Z)"
     if type(j) is float:
+        if j != j or j in (float("inf"), float("-inf")):
+            return f"(JOther {cstr('float')})"
         return f"(JFloat {cstr(repr(j))})"
     if type(j) is str:
         if tb is not None:
@@ -181,6 +185,8 @@ def cell_term(v) -> str:
     if type(v) is int:
         return f"(CInt ({v})%Z)"
     if type(v) is float:
+        if v != v or v in (float("inf"), float("-inf")):
+            return f"(CForeign {cstr('float')})"
         return f"(CFloat {cstr(repr(v))})"
     if isinstance(v, (datetime.datetime, datetime.date, datetime.time)):
         return f"(CDateTimeLike {cstr(v.isoformat())})"
@@ -478,6 +484,8 @@ def has_marker_key(x) -> bool:
 
 
 def other_leaves(x, path="") -> list[str]:
+    if type(x) is float and (x != x or x in (float("inf"), float("-inf"))):
+        return [f"{path}:non-finite float {x!r}"]
     if isinstance(x, (io.BytesIO, bytes, bytearray)) or x is None or type(x) in (bool, int, float, str):
         return []
     if dataclasses.is_dataclass(x) and not isinstance(x, type):
@@ -704,7 +712,7 @@ def roundtrip_impl(x):
     except Exception as e:  # noqa
         return None, repr(e), "to_json"
     try:
-        text = json.dumps(tj)
+        text = json.dumps(tj, allow_nan=False)      # standard JSON: NaN / Infinity tokens are not JSON
     except Exception as e:  # noqa
         return None, repr(e), "dumps"
     try:
@@ -940,6 +948,37 @@ def codec_ast_problems() -> tuple[list[str], list[int]]:
     return sorted(set(problems)), sorted(c for c in consts if 8 < c <= 8 * 1024 * 1024)
 
 
+def state_inventory_problems() -> list[str]:
+    """The model's serialize/deser are pure functions of the value.  Fail closed on module state in serialization.py other
+    than the lazily filled type registry: a module-level mutable container, a caching decorator, a `global` statement."""
+    from sharepoint2text.parsing.extractors import serialization as S
+    tree = ast.parse(inspect.getsource(S))
+    problems = []
+    for st in tree.body:
+        targets, value = [], None
+        if isinstance(st, ast.Assign):
+            targets, value = [x.id for tg in st.targets for x in ast.walk(tg) if isinstance(x, ast.Name)], st.value
+        elif isinstance(st, ast.AnnAssign) and isinstance(st.target, ast.Name):
+            targets, value = [st.target.id], st.value
+        if value is not None and isinstance(value, (ast.Dict, ast.List, ast.Set, ast.DictComp, ast.ListComp, ast.SetComp, ast.Call)):
+            for name in targets:
+                if name != "_TYPE_REGISTRY":
+                    problems.append(f"module-level mutable/constructed object {name} = {ast.unparse(value)[:40]}")
+    for name, obj in vars(S).items():
+        if isinstance(obj, (dict, list, set)) and name != "_TYPE_REGISTRY" and not name.startswith("__") \
+                and getattr(obj, "__module__", None) is None:
+            if not any(name in p_ for p_ in problems):
+                problems.append(f"module attribute {name} is a {type(obj).__name__}")
+    for n in ast.walk(tree):
+        if isinstance(n, ast.Global):
+            problems.append(f"global statement (line {n.lineno})")
+        if isinstance(n, (ast.FunctionDef, ast.AsyncFunctionDef)):
+            for d in n.decorator_list:
+                if "cache" in ast.unparse(d):
+                    problems.append(f"{n.name} is decorated with {ast.unparse(d)}")
+    return problems
+
+
 def boundary_sizes(consts: list[int], tier_quick: bool) -> list[int]:
     """Payload lengths around every power of two up to 2 MiB and around every integer constant of serialization.py
     (c-1, c, c+1, 2c-1, 2c, 2c+1, 3c+1), plus the residues mod 3 of small lengths."""
@@ -1050,6 +1089,39 @@ def cli_ast_problems() -> list[str]:
                for n in ast.walk(tree)):
         problems.append("no serialiser call found in cli.py (translator out of date)")
     return problems
+
+
+def make_ods_cases(td: Path):
+    """An .ods whose numeric cells carry office:value NaN / inf / -inf / 1e999 / 1e300 / 0.5 (fixture's first float cells
+    rewritten; the zip is rebuilt member by member, mimetype first and stored)."""
+    import re
+    import zipfile
+    src = common.REPO / "sharepoint2text" / "tests" / "resources" / "open_office" / "sample_spreadsheet.ods"
+    try:
+        zin = zipfile.ZipFile(src)
+        content = zin.read("content.xml").decode("utf-8")
+    except Exception as e:  # noqa
+        return [], [repr(e)]
+    values = iter(["NaN", "inf", "-inf", "1e999", "1e300", "0.5", "nan", "-0.0"])
+    n = [0]
+
+    def sub(m):
+        try:
+            v = next(values)
+        except StopIteration:
+            return m.group(0)
+        n[0] += 1
+        return f'office:value-type="float" office:value="{v}"'
+
+    content2 = re.sub(r'office:value-type="float" office:value="[^"]*"', sub, content)
+    if n[0] < 4:
+        return [], [f"only {n[0]} float cells found in sample_spreadsheet.ods"]
+    q = td / "nonfinite_cells.ods"
+    with zipfile.ZipFile(q, "w") as zout:
+        for info in zin.infolist():
+            data = content2.encode("utf-8") if info.filename == "content.xml" else zin.read(info.filename)
+            zout.writestr(info.filename, data, compress_type=zipfile.ZIP_STORED if info.filename == "mimetype" else zipfile.ZIP_DEFLATED)
+    return [("ods-non-finite-float-cells", q)], []
 
 
 def doc_replay(label: str, p: Path) -> dict:
@@ -1190,13 +1262,14 @@ def run(ctx):
     reg, reg_problems = gen_registry(ctx)
 
     # ---- proofs
-    ctx.prove("C05/Props.v", ["C05/Proofs.vo", "C05/Roundtrip.vo", "C05/Tables.vo", "C05/Base64.vo"], expected=[
+    ctx.prove("C05/Props.v", ["C05/Proofs.vo", "C05/Roundtrip.vo", "C05/Tables.vo", "C05/Base64.vo", "C05/Markers.vo"], expected=[
         "C05_dumps_ok", "C05_roundtrip_partial", "C05_roundtrip_value", "C05_no_binary", "C05_position_restored",
         "C05_cli_shape", "C05_cli_unit_shape", "C05_markers_refuted_any_registry", "C05_xlsx_cell_json_clean",
         "C05_cli_all_or_nothing", "C05_roundtrip_same_object", "C05_nonstring_keys_refuted",
         "C05_base64_roundtrip_all_lengths", "C05_base64_chunks_at_multiples_of_3", "C05_base64_chunks_unaligned_refuted",
         "C05_roundtrip_concrete_codec", "C05_base64_encoder_output_canonical", "C05_decoder_sees_only_canonical",
-        "C05_from_json_value_error"])
+        "C05_from_json_value_error", "C05_binary_marker_key_always_confused", "C05_binary_marker_key_iff",
+        "C05_type_marker_builds_dataclass", "C05_keys_not_markers_not_necessary"])
     ok_inst, _ = ctx.prove("C05/Inst.v", ["Gen/C05Registry.vo", "C05/Corr.vo", "C05/Proofs.vo", "C05/Base64.vo"], expected=[
         "C05_registry_wf", "C05_hints_known", "C05_defaults_ok", "C05_markers_never_confused_refuted",
         "C05_roundtrip_hyps_satisfiable"])
@@ -1448,8 +1521,8 @@ def run(ctx):
         got = X._get_cell_value(v)
         ccases.append(f"({cell_term(v)}, {val_term(got)})")
         ctx.case(("cell", repr(v)), v is not None, kind="xlsx-cell:" + type(v).__name__)
-        known = v is None or type(v) in (str, bool, int, float, datetime.datetime, datetime.date, datetime.time,
-                                          datetime.timedelta)
+        known = v is None or (type(v) in (str, bool, int, float, datetime.datetime, datetime.date, datetime.time,
+                                           datetime.timedelta) and not (type(v) is float and v != v))
         if known and other_leaves(got):
             ctx.finding("xlsx-duration-cell" if isinstance(v, datetime.timedelta) else f"xlsx-cell:{type(v).__name__}",
                         f"xlsx _get_cell_value keeps a {type(v).__name__} cell value ({v!r}) that json.dumps rejects",
@@ -1471,6 +1544,32 @@ def run(ctx):
     else:
         ctx.obligation("refutation witness C05_markers_never_confused_refuted replays on the implementation", False,
                        "the implementation restores marker_witness although the model does not")
+    # the marker theorems replayed on the implementation, one XLS-like row per case:
+    #   C05_binary_marker_key_always_confused / C05_type_marker_builds_dataclass: never restored (known finding's shape);
+    #   C05_keys_not_markers_not_necessary: a `_type` cell that is no registered class name IS restored
+    if "XlsSheet" in reg and "XlsContent" in reg:
+        mk = lambda row: reg["XlsContent"](sheets=[reg["XlsSheet"](name="S", data=[row], text="t")])  # noqa: E731
+        harmless = [{"_type": v_, "name": "a"} for v_ in (5, None, "", "Nope", 1.5, True, 0)]
+        confused = [{k_: v_, "name": "a"} for k_ in ("_bytes", "_bytesio") for v_ in (5, "aGk=", None, "x", "")] + \
+                   [{"_type": n_, "name": "a"} for n_ in ("TableDim", "EmailAddress", "XlsSheet")]
+        for row in harmless:
+            xw = mk(row)
+            y, err, stage = roundtrip_impl(xw)
+            ctx.case(("marker-theorem", repr(row)), True, kind="marker-theorems:harmless-_type-value")
+            if y is None or same_object_views(xw, y):
+                ctx.finding("harmless-type-key-not-restored", f"a row {row!r} (`_type` cell that names no registered class) is not "
+                            f"restored although the model restores it: {err}", {"python": repr(xw), "row": row})
+        not_confused = []
+        for row in confused:
+            xw = mk(row)
+            y, err, stage = roundtrip_impl(xw)
+            ctx.case(("marker-theorem", repr(row)), True, kind="marker-theorems:confused")
+            if y is not None and not same_object_views(xw, y):
+                not_confused.append(row)
+            else:
+                ctx.finding("marker-key-in-content-dict", "marker-named content key", {"python": repr(xw), "row": row, "error": err})
+        ctx.obligation("marker theorems replay on the implementation (binary marker / registered `_type` rows are never restored)",
+                       not not_confused, f"restored although the model says confused: {not_confused[:3]}")
     wc = witness_clean(reg)
     y, err, stage = roundtrip_impl(wc)
     if y is None or same_object_views(wc, y):
@@ -1568,6 +1667,114 @@ def run(ctx):
                              "kind": kind, "how": "o = <instance of carrier class>; o.<field> = <kind>(payload); "
                                                   "deserialize_extraction(json.loads(json.dumps(serialize_extraction(o))))"})
 
+    # ---- D2d: HISTORIES in one process.  (i) many short-lived results whose BytesIO / bytes payloads have the same length but
+    # different content (address reuse after a result is freed); (ii) one buffer whose content is rewritten between two
+    # to_json() calls.  to_json must be a function of the current content only.
+    stp = state_inventory_problems()
+    ctx.obligation("serialization.py keeps no state besides the type registry (ast + module attributes)", not stp, "; ".join(stp))
+    import gc
+    for kind, (cname, fname), mk in carriers:
+        for L_ in (16, 4096):
+            wrong = 0
+            for i_ in range(ctx.n(120, 500)):
+                blob = _random.Random(f"h-{ctx.seed}-{L_}-{i_}").randbytes(L_)
+                try:
+                    o = g.instance(cname, 3)
+                    setattr(o, fname, mk(blob))
+                    if has_marker_key(o) or other_leaves(o):
+                        continue
+                    y = S.deserialize_extraction(json.loads(json.dumps(S.serialize_extraction(o))))
+                    okh_ = payloads(y) == payloads(o)
+                except Exception as e:  # noqa
+                    okh_ = False
+                ctx.case(("history", kind, L_, i_), True, kind=f"history:same-length-payloads:{kind}")
+                if not okh_:
+                    wrong += 1
+                    if wrong == 1:
+                        ctx.finding(f"history:same-length-payloads:{kind}",
+                                    f"after {i_} earlier (freed) results with {L_}-byte {kind} payloads, {cname}.{fname} is restored "
+                                    f"with other bytes than it holds (to_json depends on the history of the process)",
+                                    {"carrier": f"{cname}.{fname}", "kind": kind, "length": L_, "index": i_,
+                                     "how": "for i in range(n): o = <carrier instance with a fresh payload random.Random(f'h-{seed}-{L}-{i}')"
+                                            ".randbytes(L)>; y = from_json(loads(dumps(to_json(o)))); compare payload bytes; drop o, y"})
+                o = y = None
+                if i_ % 16 == 0:
+                    gc.collect()
+    if bio_cls:
+        cname, fname = bio_cls[0]
+        for i_ in range(20):
+            try:
+                o = g.instance(cname, 3)
+                buf = io.BytesIO(b"A" * 64)
+                setattr(o, fname, buf)
+                S.serialize_extraction(o)
+                new = _random.Random(f"m-{i_}").randbytes(64)
+                buf.seek(0)
+                buf.write(new)
+                y = S.deserialize_extraction(json.loads(json.dumps(S.serialize_extraction(o))))
+                okm = has_marker_key(o) or bool(other_leaves(o)) or new in payloads(y)
+            except Exception:  # noqa
+                okm = False
+            ctx.case(("history", "rewritten-buffer", i_), True, kind="history:rewritten-buffer")
+            if not okm:
+                ctx.finding("history:rewritten-buffer", f"{cname}.{fname}: to_json after the buffer was rewritten in place (same length) "
+                            f"still carries the old content", {"carrier": f"{cname}.{fname}", "how": "to_json(o); buf.seek(0); buf.write(new); to_json(o)"})
+                break
+
+    # ---- D2e: the path argument of metadata / extractor entry points: str or pathlib.Path or None, on disk or not
+    import pathlib
+    real0 = next((p_ for p_ in fixture_files() if p_.suffix == ".txt"), None)
+    def path_variants(real):
+        return [("str-existing", str(real)), ("Path-existing", pathlib.Path(real)), ("str-missing", "memory/" + real.name),
+                ("Path-missing", pathlib.Path("memory") / real.name), ("Path-missing-absolute", pathlib.Path("/nonexistent-dir/x") / real.name),
+                ("str-odd", "pack.zip!/./docs//" + real.name), ("None", None)]
+    if real0 is not None:
+        for cname in g.names:
+            cls_ = reg[cname]
+            if not hasattr(cls_, "populate_from_path"):
+                continue
+            for vname, arg in path_variants(real0):
+                try:
+                    m_ = cls_()
+                    m_.populate_from_path(arg)
+                except Exception:  # noqa
+                    continue
+                ctx.case(("populate_from_path", cname, vname), True, kind="path-argument:populate_from_path")
+                bad = other_leaves(m_) + universe_problems(m_)
+                if bad:
+                    ctx.finding(f"path-argument:populate_from_path:{vname}",
+                                f"{cname}().populate_from_path({arg!r}) stores a value json.dumps rejects: {bad[:2]}",
+                                {"class": cname, "argument": repr(arg), "leaves": bad[:5]})
+        from sharepoint2text.parsing import router as _router
+        small = [p_ for p_ in fixture_files() if p_.stat().st_size < 40_000 and "password" not in str(p_)
+                 and p_.suffix in (".txt", ".md", ".csv", ".html", ".docx", ".odt", ".eml", ".rtf", ".pptx", ".ods", ".xlsx", ".epub", ".json")]
+        seen_ext = set()
+        for real in small:
+            if real.suffix in seen_ext:
+                continue
+            seen_ext.add(real.suffix)
+            data_ = real.read_bytes()
+            try:
+                extractor = _router.get_extractor(str(real))
+            except Exception:  # noqa
+                continue
+            for vname, arg in path_variants(real):
+                try:
+                    rs_ = list(extractor(io.BytesIO(data_), arg))
+                except Exception:  # noqa
+                    ctx.count("path-argument:extractor-raises")
+                    continue
+                for r_ in rs_:
+                    ctx.case(("extractor-path", real.suffix, vname), True, kind="path-argument:extractor")
+                    bad = other_leaves(r_) + universe_problems(r_)
+                    y, err, stage = roundtrip_impl(r_)
+                    if bad or y is None:
+                        ctx.finding(f"path-argument:extractor:{vname}",
+                                    f"{extractor.__name__}(bytes of {real.name}, path={arg!r}) gives a result whose to_json() the JSON "
+                                    f"encoder rejects or from_json does not restore: {(bad or [err])[:2]}",
+                                    {"extractor": extractor.__name__, "fixture": str(real), "path_argument": repr(arg), "stage": stage,
+                                     "leaves": bad[:5], "error": err})
+
     def finish_b64():
         okcn, fcn, logcn = f_canon.result()
         ctx.obligation("correspondence:b64_canonical == (strict library decode succeeds and re-encodes to the string)",
@@ -1597,7 +1804,9 @@ def run(ctx):
         docs = [("fixture:" + str(p.relative_to(common.REPO / "sharepoint2text" / "tests" / "resources")), p)
                 for p in fixture_files()] + make_xlsx_cases(td)
         xls_docs, xls_problems = make_xls_cases(td)
-        docs += xls_docs
+        ods_docs, ods_problems = make_ods_cases(td)
+        docs += xls_docs + ods_docs
+        xls_problems = xls_problems + ods_problems
         ctx.obligation("generated .xls inputs (numeric header cell, marker-named header cell) could be derived", not xls_problems,
                        "; ".join(xls_problems))
         multi = None
@@ -1637,7 +1846,7 @@ def run(ctx):
                     ctx.case((key, role, len(objs)), bool(payloads(o)) or role == "result", kind=f"document:{role}")
                     others = other_leaves(o)
                     try:
-                        text = json.dumps(o.to_json())
+                        text = json.dumps(o.to_json(), allow_nan=False)   # NaN / Infinity tokens are not JSON
                     except Exception as e:  # noqa
                         fk = label if label.startswith("xlsx-") else f"to_json-not-encodable:{label}"
                         ctx.finding(fk, f"json.dumps(to_json()) raises {e!r} for {label} ({role}); non-JSON leaves: {others[:3]}",
@@ -1675,7 +1884,7 @@ def run(ctx):
         # carry images (binary payloads in the units AND in the extraction objects), and on combinations of real
         # image-bearing results with shortened payloads (small enough for the model comparison in Coq)
         cli_inputs = []                     # (label, path, results)
-        cli_docs = [(lb, p) for lb, p in docs if lb.startswith("xlsx-") or lb.startswith("xls-")]
+        cli_docs = [(lb, p) for lb, p in docs if lb.startswith(("xlsx-", "xls-", "ods-"))]
         for want in ("fixture:modern_ms", "fixture:plain_text", "fixture:mails", "fixture:html", "fixture:open_office",
                      "fixture:legacy_ms"):
             c = [(lb, p) for lb, p in docs if lb.startswith(want) and p.stat().st_size < 400_000]
@@ -1799,6 +2008,13 @@ def run(ctx):
                         parsed = json.loads(out) if rc == 0 else None
                     except Exception:  # noqa
                         parsed = None
+                    if rc == 0 and any(tok in out for tok in ("NaN", "Infinity")):
+                        try:
+                            json.loads(out, parse_constant=lambda c_: (_ for _ in ()).throw(ValueError(c_)))
+                        except ValueError as e:
+                            ctx.finding(f"cli-non-json-token:{flag}", f"CLI {flag} output for {label} contains the token {e} "
+                                        f"(not JSON; strict parsers reject it)", rp)
+                            continue
                     # without --binary no binary marker with a payload may appear anywhere in the output
                     if parsed is not None and not binary and not content_markers:
                         leak = binary_marker_paths(parsed)
